@@ -105,10 +105,15 @@ class App(BaseComponent):
     def _on_request(self, event, req, res, *a):
         if req.path == '/boom':
             raise RuntimeError('application failure')
+        if req.path == '/stream':
+            # a streamed body (written piece by piece through HTTP._on_stream)
+            res.body = (x for x in [b'st', b're', b'am'])
+            res.stream = True
+            return res
         return 'ok %s' % req.path
 
 
-def make_harness(n_mut, truncation=True, bases=None):
+def make_harness(n_mut, truncation=True, bases=None, prelude=False):
     def harness(g):
         bname, msg = g.pick('base', [b for b in BASES if bases is None or b[0] in bases])
         applied = []
@@ -139,6 +144,14 @@ def make_harness(n_mut, truncation=True, bases=None):
         late = g.flag('disconnect_deferred')
         rig.defer_disconnect = late
         sock = rig.new_sock()
+        pre_out = pre_req = 0
+        if prelude:
+            # the message under test is the second one on a kept-alive connection whose first response was streamed
+            rig.feed(sock, b'GET /stream HTTP/1.1\r\n' + HOST + b'\r\n')
+            pre_out, pre_req = len(rig.out(sock)), len(rig.requests)
+            if b'stream' not in rig.out(sock).replace(b'\r\n', b'') and b'st' not in rig.out(sock):
+                g.fail('prelude-not-served', {}, repr(rig.out(sock)[:120]))
+                raise PathEnd()
         w = {'base': bname, 'mutations': '+'.join(applied), 'truncated': not full}
         where = 'base=%s mutations=%s delivered=%d/%d bytes disconnect=%s tail=%r' % (bname, applied, t, L, disc, msg[max(0, t - 24):t])
         g.note({'base': bname, 'mutations': applied, 'delivered': t, 'of': L, 'disconnect': disc})
@@ -164,9 +177,9 @@ def make_harness(n_mut, truncation=True, bases=None):
             g.fail('loop-never-settles', w, where)
             raise PathEnd()
         st = rig.conn(sock)
-        out = bytes(st['out'])
+        out = bytes(st['out'])[pre_out:]
         resps = []
-        nreq = len(rig.requests)
+        nreq = len(rig.requests) - pre_req
         detail = '%s; out=%r closed=%s requests=%d exceptions=%s' % (where, out[:160], st['closed'], nreq, rig.exceptions[:2])
         if st['write_after_close']:
             g.fail('write-after-close', w, detail)
@@ -255,10 +268,16 @@ def parts(tier):
                                                              'truncation': 'every offset (z3 Int), or the whole message', 'disconnect_after': 'yes/no'},
                      encoded=ENC, budget_s=90),
                 Part('two-mutations-whole', make_harness(2, truncation=False), bounds={'mutations_per_request': 2, 'truncation': 'none (whole message)', 'disconnect_after': 'yes/no'},
-                     encoded=ENC, budget_s=90)]
+                     encoded=ENC, budget_s=90),
+                Part('after-streamed-response', make_harness(1, truncation=False, prelude=True),
+                     bounds={'mutations_per_request': 1, 'truncation': 'none', 'history': 'second message on a kept-alive connection whose first response was streamed'},
+                     encoded=ENC + [WH.HTTP._on_stream], budget_s=90)]
     return [Part('one-mutation', make_harness(1), bounds={'mutations_per_request': 1}, encoded=ENC, budget_s=900),
             Part('two-mutations-whole', make_harness(2, truncation=False), bounds={'mutations_per_request': 2, 'truncation': 'none (whole message)', 'disconnect_after': 'yes/no'},
                  encoded=ENC, budget_s=900),
+            Part('after-streamed-response', make_harness(1, prelude=True),
+                 bounds={'mutations_per_request': 1, 'truncation': 'every offset', 'history': 'second message on a kept-alive connection whose first response was streamed'},
+                 encoded=ENC + [WH.HTTP._on_stream], budget_s=900),
             Part('two-mutations-truncated', make_harness(2, bases=['get', 'post-chunked']), bounds={'bases': ['get', 'post-chunked'], 'mutations_per_request': 2, 'truncation': 'every offset (z3 Int), or the whole message'},
                  encoded=ENC, budget_s=1800)]
 
